@@ -44,6 +44,8 @@ ALLOCS = {"__ckd_calloc__": (0, 1), "__ckd_malloc__": (0,), "__ckd_calloc_2d__":
           "__ckd_alloc_2d_ptr": (0, 1), "__ckd_alloc_3d_ptr": (0, 1, 2), "bitvec_alloc": (0,), "__ckd_realloc__": (1,)}
 FREES = ("ckd_free", "ckd_free_2d", "ckd_free_3d", "ckd_free_4d")
 
+FIXTURES = ["product_fx.c"]
+
 
 def key(fn, what):
     return "%s:%s" % (fn.name, what)
@@ -620,6 +622,36 @@ def lower_bound_pred(x, validated, tainted=()):
 def _trusted(name):
     # values that come from an already constructed object, not from this file
     return name.startswith(("g->", "acmod->", "mdef_", "feat->", "fcb->", "s->g->", "msg->g->")) or name in ("mdef_n_sen",)
+
+
+WIDE = ("long", "unsigned long", "size_t", "long long", "unsigned long long", "ptrdiff_t", "int64", "uint64")
+
+
+def product_rule(ctx, P, fns):
+    """a bound test over a product of counts is only a bound test if the product cannot wrap"""
+    r = ctx.rule("TAINT.wide-product", "in the loaders an ordering test over a product of two run-time values, at least one of them a field of the object being loaded or a value read from the file, is computed in a 64-bit type: a 32-bit product of counts taken from a damaged file wraps and passes the test it was meant to fail (none on this tree: the fixture is the positive control)", floor=0)
+    for f in fns:
+        tainted = set(t[0] for t in tainted_scalars(f))
+        n = 0
+        for i in f.walk():
+            nd = f.nodes[i]
+            if nd["k"] != "Bin" or nd["op"] not in ("<", ">", "<=", ">="):
+                continue
+            for side in nd["ch"]:
+                for x in f.walk(side):
+                    xd = f.nodes[x]
+                    if xd["k"] != "Bin" or xd["op"] != "*":
+                        continue
+                    a, b = xd["ch"]
+                    if f.constval(a) is not None or f.constval(b) is not None or f.k(f.strip(a)) == "Sizeof" or f.k(f.strip(b)) == "Sizeof":
+                        continue
+                    fromfile = any(f.k(y) == "Member" or f.canon(y, subst=False) in tainted for o in (a, b) for y in f.walk(o))
+                    if not fromfile:
+                        continue
+                    n += 1
+                    ctx.touch(f)
+                    t = (xd.get("ct") or xd.get("t", "")).replace("const ", "").strip()
+                    ctx.check(r, t in WIDE, key(f, "product@%d" % n), f.where(i), "the test `%s` multiplies `%s` in the type `%s`: for counts from a damaged file the product wraps and the test passes, so what it guards (offsets into the mapped file, allocation sizes) is reached with the oversized count" % (f.canon(i, subst=False)[:90], f.canon(x, subst=False)[:60], t))
 
 
 def taint_rule(ctx, P, fns):
@@ -1410,6 +1442,12 @@ def run(ctx):
     errd_null(ctx, P, fns)
     exit_rule(ctx, P, fns)
     taint_rule(ctx, P, fns)
+    product_rule(ctx, P, fns)
+    from .c10 import _Collect
+    col = _Collect()
+    product_rule(col, P, [f for f in P.functions("fixture:product_fx.c") if f.name.startswith("fx_product")])
+    ctx.control("TAINT.wide-product", any(k.startswith("fx_product_bad:") for k in col.bads) and not any(k.startswith("fx_product_good:") for k in col.bads) and any(k.startswith("fx_product_good:") for k in col.oks),
+                "fixture fx_product_bad (int32 product of two counts read from the file in a bound test) must be reported, fx_product_good (the same test in size_t) must not (got %s / %s)" % (col.bads, col.oks))
     index_rule(ctx, P, fns)
     index_value_rule(ctx, P, fns)
     cursor_rule(ctx, P, fns)
